@@ -30,10 +30,13 @@ HalfTurnB(u) == IF u = 1 THEN 96 ELSE 1440
 TurnB(u) == 2 * HalfTurnB(u)
 Inward(b, m) == IF b > 0 THEN -m ELSE m        \* fine offsets point towards the equator
 Units == {0, 1, 2}
+IntRa(u) == IF u = 1 THEN {0, 1, 12, 13, 23} ELSE IF u = 2 THEN {0, 9, 10, 180, 190, 359} ELSE {0, 1, 3, 6}
+IntDec(u) == IF u = 0 THEN {-1, 0, 1} ELSE {-90, -45, -1, 0, 1, 30, 90}
+IE(v) == EA(8 * v, 0)
 DegUnits == {1, 2}
 
 InitStripe == \E s \in Stripes : c = [kind |-> "stripe", stripe |-> s]
-ExpStripe(cc) == [eta10 |-> Eta10(cc.stripe), incl10 |-> Incl10(cc.stripe), node10 |-> Node10]
+ExpStripe(cc) == [eta10 |-> Eta10(cc.stripe), incl10 |-> Incl10(cc.stripe), node10 |-> Node10, forms |-> FormsFor({cc.stripe})]
 
 Sources == {[on |-> "circ", t |-> j * ThetaStep] : j \in 0 .. ((3600 \div ThetaStep) - 1)}
            \cup {[on |-> "axis", t |-> j] : j \in {0, 1}}
@@ -45,12 +48,15 @@ InitAnchor == \E s \in Stripes : \E dir \in {"fwd", "inv"} : \E a \in Sources \c
 ImageOf(cc, a) == IF cc.dir = "fwd" THEN ToEq(cc.stripe, a) ELSE ToMuNu(cc.stripe, a)
 ExpAnchor(cc) == LET im == ImageOf(cc, cc.src)
                      polar == AbsI(PosOf(im).lat) >= 899
-                 IN [image |-> im, src |-> PosOf(cc.src), dst |-> PosOf(im), polar |-> polar, tol |-> PosTolNdeg(polar)]
+                 IN [image |-> im, src |-> PosOf(cc.src), dst |-> PosOf(im), polar |-> polar, tol |-> PosTolNdeg(polar),
+                     forms |-> PosForms(PosOf(cc.src))]
 
 InitVecAnchor == \E lon \in AxisLons : \E lat \in AxisLats : \E l \in BOOLEAN :
                     c = [kind |-> "vecanchor", lon |-> lon, lat |-> lat, latitude |-> l]
 ExpVecAnchor(cc) == [angles |-> AnglesArg(cc.lon, cc.lat, cc.latitude), x |-> UnitVec(cc.lon, cc.lat),
-                     polar |-> AbsI(cc.lat) = 900, tol |-> PosTolNdeg(AbsI(cc.lat) = 900)]
+                     polar |-> AbsI(cc.lat) = 900, tol |-> PosTolNdeg(AbsI(cc.lat) = 900),
+                     aforms |-> LET a == AnglesArg(cc.lon, cc.lat, cc.latitude) IN FormsFor({a[1] \div 10, a[2] \div 10}),
+                     xforms |-> LET x == UnitVec(cc.lon, cc.lat) IN FormsFor({x[1], x[2], x[3]})]
 
 InitDist ==
   \* one meridian, a coarse declination and a fine step from it
@@ -84,6 +90,11 @@ InitDist ==
         c = DC("opposite", u, k, Pt(EA(rb, 0), EA(b, 0)), Pt(EA(rb + HalfTurnB(u), 0), EA(-b, Inward(-b, m))))
   \/ \E u \in DegUnits : \E rb \in RaFew(u) : rb < HalfTurnB(u) /\ \E sg \in {-1, 1} : \E k \in Ks(u) : \E m \in Ms :
         c = DC("opposite", u, k, Pt(EA(rb, 0), EA(720 * sg, -sg * m)), Pt(EA(rb + HalfTurnB(u), 0), EA(720 * sg, -sg * m)))
+  \* integer grid (whole degrees / hours / radians): every pair of the grid that belongs to a family; these
+  \* are the cases that can be handed over with integer types (pairs across RA 0, descending, antipodal)
+  \/ \E u \in Units : \E r1, r2 \in IntRa(u) : \E d1, d2 \in IntDec(u) :
+        /\ Applicable(Pt(IE(r1), IE(d1)), Pt(IE(r2), IE(d2)), u) # {}
+        /\ c = DC("intgrid", u, KMin, Pt(IE(r1), IE(d1)), Pt(IE(r2), IE(d2)))
   \* identical coordinates
   \/ \E u \in Units : \E rb \in RaBs(u) : \E b \in DecB(u) :
         c = DC("ident", u, KMin, Pt(EA(rb, 0), EA(b, 0)), Pt(EA(rb, 0), EA(b, 0)))
@@ -141,6 +152,11 @@ C18_DistZeroIffSamePoint == IsDist => DistZeroIffSamePoint(c)
 C18_UnitsExact == IsDist => UnitsExact(c)
 C18_DemandWithinStatement == IsDist => DemandWithinStatement(c)
 C18_ExpZero == IsDist => (exp.zero => exp.d = EZ)
+(* integer forms: offered exactly when every coordinate is a whole number the type holds; the integer grid admits them *)
+C18_IntForms == IsDist => /\ (c.fam = "intgrid" => {"int64", "int32", "int16", "pyint"} \subseteq exp.forms)
+                          /\ \A f \in exp.forms : \A x \in {c.p.ra, c.p.dec, c.q.ra, c.q.dec} :
+                                EAIntegral(x) /\ FormLo(f) <= x.b \div 8 /\ x.b \div 8 <= FormHi(f)
+                          /\ ((\E x \in {c.p.ra, c.p.dec, c.q.ra, c.q.dec} : x.b < 0) => exp.forms \cap {"uint8", "uint16", "uint32", "uint64"} = {})
 
 Dot3(a, b) == a[1] * b[1] + a[2] * b[2] + a[3] * b[3]
 C18_VecAnchorUnit == IsVecAnchor => Dot3(exp.x, exp.x) = 1
